@@ -351,6 +351,7 @@ pub fn gen_msg_program(id: &str, tape: Vec<u32>, opts: &GenOpts) -> Program {
         id: id.to_string(),
         contract: Contract {
             generics,
+            generic_names: vec![],
             rel_bounds,
             error,
             custom_msg,
@@ -530,6 +531,7 @@ pub fn gen_reply_program(id: &str, tape: Vec<u32>, opts: &GenOpts, any_order: bo
         id: id.to_string(),
         contract: Contract {
             generics,
+            generic_names: vec![],
             rel_bounds: vec![],
             error,
             custom_msg,
